@@ -74,7 +74,7 @@ stem=$(basename "$inp"); stem="${stem%.*}"
 case "$mode" in
   ok) { printf 'CONVERTED:'; cat "$inp"; } > "$out/$stem.$fmt"; exit 0;;
   fail) echo "conversion failed" >&2; exit 1;;
-  failafter) { printf 'CONVERTED:'; cat "$inp"; } > "$out/$stem.$fmt"; exit 1;;
+  failafter) printf 'TRUNCATED-' > "$out/$stem.$fmt"; echo "crashed while writing" >&2; exit 1;;
   nooutput) exit 0;;
 esac
 exit 2
@@ -84,10 +84,10 @@ REAL_MODES = ("real_ok", "real_fail", "real_failafter", "real_nooutput")
 
 def fake_soffice(mode):
     """Path of an executable that the library's own LibreOfficeConverter accepts (answers --version) and that converts
-    by prefixing the input (ok), fails (fail), writes the output and fails (failafter) or writes nothing (nooutput)."""
+    by prefixing the input (ok), fails (fail), dies after writing a truncated output (failafter) or writes nothing (nooutput)."""
     d = os.path.join(repo.VERIF, ".work", "c18-bin")
     os.makedirs(d, exist_ok=True)
-    p = os.path.join(d, "soffice-" + mode.split("_", 1)[1])
+    p = os.path.join(d, "soffice2-" + mode.split("_", 1)[1])
     if not os.path.exists(p):
         tmp = p + f".{os.getpid()}"
         with open(tmp, "w") as f:
